@@ -15,6 +15,8 @@ decidable well-formedness predicates, then instantiated on the concrete handler 
 * `pins_equal_success`, `pins_differ_atomic`, `dmap_pins_differ`: the PIN is a parameter of the
   run (`runPins`): for EVERY value (0 = "0000" included) equal PINs give the fault-free run,
   different PINs the wrong-PIN fault with the failure clause;
+* `fault_initial_untouched`, `success_overwrites_any_initial`: the initial contents of the
+  service and of the settings are independent parameters (`credsAfter`);
 * per handler: `wellFormed` by `decide`, and the instantiated statements.
 * DMAP signals failure only through `has_paired = False` (finish() returns normally):
   `handlers_fault_atomic_counterexample`, `handlers_fault_atomic_partial`, `dmap_fault_no_effect`.
@@ -282,6 +284,26 @@ theorem handlers_success : ∀ p ∈ handlers, run p.2 none = (Outcome.ok, St.do
   apply success
   revert p
   decide
+
+/-! ## The initial state as a parameter: service and settings independent -/
+
+/-- **C08, previously stored credentials untouched — whatever they were.**  For every initial
+    pair (service value, settings value), equal or not, a failed exchange leaves exactly that
+    pair. -/
+theorem fault_initial_untouched (s : List Step) (hsl : storeLast s = true) (hck : allChecked s = true)
+    (i : Nat) (f : Fault) (hf : f ∈ appAt s i) (a b : Cred) :
+    credsAfter a b (run s (some (i, f))).2 = (a, b) := by
+  rw [(fault_no_effect s hsl hck i f hf).1]
+  simp [credsAfter, St.init]
+
+/-- **C08, success overwrites both places — whatever they held.** -/
+theorem success_overwrites_any_initial (s : List Step) (hc : commits s = true) (a b : Cred) :
+    credsAfter a b (run s none).2 = (Cred.fresh, Cred.fresh) := by
+  rw [success s hc]
+  simp [credsAfter, St.done]
+
+example : credsAfter Cred.none Cred.oldA (run airplayLegacy (some (3, Fault.wrongPin))).2 = (Cred.none, Cred.oldA) ∧
+    credsAfter Cred.oldB Cred.oldA (run raopHap none).2 = (Cred.fresh, Cred.fresh) := by decide
 
 /-! ## The PIN as a parameter: every value, boundary values included -/
 
